@@ -114,8 +114,9 @@ def get_html_md_word_splitter() -> WordSplitter:
 
 # Pattern to identify words that need escaping if they start a wrapped markdown line.
 # Matches list markers (*, +, -) bare or before a space (but not before a letter for
-# example), blockquotes (> ), headings (#, ##, etc.).
-_md_specials_pat = re.compile(r"^([-*+>]|#+)$")
+# example), headings (#, ##, etc.), Setext underlines and thematic breaks (===, ---,
+# ***, ___), and words that begin a blockquote (>, >word) or a code fence (```, ~~~).
+_md_specials_pat = re.compile(r"^([-*+]|#+|=+|-{2,}|\*{3,}|_{3,})$|^>|^`{3,}|^~{3,}")
 
 # Separate pattern to specifically find the numbered list cases for targeted escaping
 _md_numeral_pat = re.compile(r"^[0-9]+[.)]$")
